@@ -61,7 +61,8 @@ def pregen(ctx):
         return (res.pkg.funcs[e.qual].cls, p.split('.', 1)[1])
     for e in res.entries:
         for p in e.params[e.n_explicit:]:
-            attr_id.setdefault(akey(e, p), len(attr_id))
+            if not p.startswith('@'):
+                attr_id.setdefault(akey(e, p), len(attr_id))
     expected = sorted(_expected_mutators(ctx))
     # the `_refuted` witness file only exists (and only compiles) while some recorded mutator still reproduces
     global STAGES
@@ -71,9 +72,9 @@ def pregen(ctx):
     L.append('Definition global_allowed : list bool := [' + '; '.join('true' if _global_allowed(e.name) else 'false' for e in res.entries) + '].')
     ap, ax = [], []
     for e in res.entries:
-        pairs = [(i, attr_id[akey(e, p)]) for i, p in enumerate(e.params) if i >= e.n_explicit]
+        pairs = [(i, attr_id[akey(e, p)]) for i, p in enumerate(e.params) if i >= e.n_explicit and not p.startswith('@')]
         ap.append('[' + '; '.join(f'({i}, {a})' for i, a in pairs) + ']')
-        ax.append('[' + '; '.join(f'({e.vars[p]}, {attr_id[akey(e, p)]})' for p in e.params[e.n_explicit:]) + ']')
+        ax.append('[' + '; '.join(f'({e.vars[p]}, {attr_id[akey(e, p)]})' for p in e.params[e.n_explicit:] if not p.startswith('@')) + ']')
     L.append('Definition attr_params : list (list (nat * nat)) := [' + ';\n  '.join(ap) + '].')
     L.append('Definition attr_exit : list (list (nat * nat)) := [' + ';\n  '.join(ax) + '].')
     L.append('Definition n_self : list nat := [' + '; '.join('1' if (res.pkg.funcs[e.qual].cls and res.pkg.funcs[e.qual].kind in ('method', 'property')) else '0' for e in res.entries) + '].')
@@ -87,6 +88,7 @@ def pregen(ctx):
     L.append('Definition ctor_required : list bool := [' + '; '.join(
         'true' if (res.pkg.funcs[e.qual].cls in inplace_classes and e.qual.split('.')[-1] in ('__new__', '__init__')) else 'false'
         for e in res.entries) + '].')
+    L.append('Definition is_ctor : list bool := [' + '; '.join('true' if e.qual.split('.')[-1] in ('__init__', '__new__') else 'false' for e in res.entries) + '].')
     L.append('Definition shared_ok : list bool := [' + '; '.join('true' if e.qual in TB.SHARED_RETURN_OK else 'false' for e in res.entries) + '].')
     L.append('Definition expected_mutators : list string := [' + '; '.join(f'"{n}"' for n in expected) + '].')
     path = os.path.join(ctx.build, 'gen', 'C19effects.v')
@@ -188,7 +190,7 @@ def _cands(pname, ann, default, r, case):
     elif P in ('dcm', 'r', 'r1', 'r2', 'array', 'rotation', 'rotations', 'dcms', 'c'):
         out += [arr(_rotm(r)) if form not in ('int', 'f32', 'list') else _rotm(r), np.array([_rotm(r) for _ in range(n)])]
     elif P in ('w', 'weights'):
-        out += [arr(np.array([2.0, 2.0])), arr(r.uniform(1, 3, n)), arr(np.array([2.0, 1.0, 3.0]))]
+        out += [arr(np.array([2.0, 2.0])), arr(np.array([2.0, 2.0])), arr(np.array([1.0, 3.0]))]     # two sensors; do not sum to one
     elif P in ('t_array', 't', 'times'):
         out += [np.linspace(0.0, 1.0, 4), 0.5]
     elif P in ('angular_positions', 'ang_pos'):
@@ -207,7 +209,7 @@ def _cands(pname, ann, default, r, case):
     elif P in ('h', 'height', 'slant', 'n', 'e', 'd', 'u', 'dt', 'frequency', 'h0', 'alt', 'distance', 'up', 'east', 'north', 'down'):
         out += [float(r.uniform(0.5, 100.0))]
     elif P in ('in_deg', 'degrees', 'inplace', 'versor', 'versors', 'as_angles', 'deg'):
-        out += [bool(case % 2), not bool(case % 2)]
+        out += [bool(case % 2), bool(case % 2)]      # independent of the shape choice: over six cases every (value, shape order) pair occurs
     elif P == 'frame':
         out += [('NED', 'ENU')[case % 2]]
     elif P == 'order':
@@ -358,6 +360,8 @@ def synthesize(qual, case):
             c = [v for v in c if isinstance(v, (int, float, str, bool))]       # the documented type: no array is passed for a float
         if (qual, p.name) in TB.RANK1:
             c = [v for v in c if np.ndim(v) == 1]                               # documented as ONE sample / ONE quaternion
+        if p.default is None and case % 6 == 4 and c and isinstance(c[0], (np.ndarray, list)):
+            continue            # optional array arguments (mag=None ...) are left out in every sixth case (case 4: batch forms first, float64)
         if not c:
             if p.default is not p.empty:
                 continue
@@ -446,6 +450,35 @@ def _result_arrays(x, depth=0):
     return out
 
 
+_POISON = (1e300, float('nan'), -7.25e-300, 123.456)
+
+
+def _poison_heap(shapes, k):
+    """leave freshly released heap blocks of the byte sizes in play filled with a sentinel (a different one before each call):
+    a result read from uninitialised memory (np.empty*) then differs between two identical calls"""
+    v = _POISON[k % len(_POISON)]
+    sizes = set()
+    for shp in shapes:
+        n = int(np.prod(shp)) if len(shp) else 1
+        sizes.add(n)
+    sizes |= {1, 3, 4, 9, 16}
+    junk = []
+    for n in sorted(sizes)[:40]:
+        if 0 < n <= 200000:
+            junk += [np.full(n, v) for _ in range(12)]
+    del junk
+
+
+def _shapes_in_play(objs):
+    out = set()
+    for o in objs:
+        for a in _result_arrays(o):
+            out.add(tuple(a.shape))
+            if a.ndim == 2:
+                out.add((a.shape[0],)); out.add((a.shape[0], 3)); out.add((a.shape[0], 4))
+    return out
+
+
 def observe(qual, case):
     """call `qual` on synthesised arguments.  Returns a dict:
        status 'ok' | 'uncovered'; mutated: list of argument paths whose bytes changed; repeat: True/False/None; variant"""
@@ -468,9 +501,11 @@ def observe(qual, case):
         names = [('self', a1[0])] if a1 else []
         named = names + [(k, v) for k, v in k1.items()] + [('self.ctor.' + k[5:] if names else k, v) for k, v in h1.items()]
         before = _snap(named)
+        shapes = _shapes_in_play([list(k1.values()), a1])
         try:
             with np.errstate(all='ignore'), warnings.catch_warnings():
                 warnings.simplefilter('ignore')
+                _poison_heap(shapes, 0)
                 r1 = ctor_of(**k1) if ctor_of is not None else fn(*a1, **k1)
         except Exception as e:
             last = f'{type(e).__name__}: {e}'[:100]
@@ -502,6 +537,7 @@ def observe(qual, case):
         try:
             with np.errstate(all='ignore'), warnings.catch_warnings():
                 warnings.simplefilter('ignore')
+                _poison_heap(shapes | _shapes_in_play([r1]), 1)
                 r2 = ctor2(**k2) if ctor2 is not None else fn2(*a2, **k2)
             res['repeat'] = (_canon(r1) == _canon(r2))
         except Exception as e:
@@ -517,17 +553,24 @@ def observe(qual, case):
                 res['results_share'] = any(np.shares_memory(x, y) for x in A1 for y in A2)
                 res['result_views_argument'] = any(np.shares_memory(x, y) for x in A1 for y in argarrs if x.size and y.size)
                 want = _canon(r2)
-                wrote = False
+                wrote = []
                 for x in A1:
                     if x.flags.writeable and x.size and x.dtype.kind in 'fiuc':
+                        wrote.append((x, x.copy()))
                         x[...] = 7 if x.dtype.kind in 'iu' else np.nan
-                        wrote = True
                 if wrote:
-                    fn3, a3, k3, h3, ctor3 = build()
-                    with np.errstate(all='ignore'), warnings.catch_warnings():
-                        warnings.simplefilter('ignore')
-                        r3 = ctor3(**k3) if ctor3 is not None else fn3(*a3, **k3)
-                    res['independent'] = (_canon(r3) == want) if res.get('repeat') else None
+                    try:
+                        fn3, a3, k3, h3, ctor3 = build()
+                        with np.errstate(all='ignore'), warnings.catch_warnings():
+                            warnings.simplefilter('ignore')
+                            r3 = ctor3(**k3) if ctor3 is not None else fn3(*a3, **k3)
+                        res['independent'] = (_canon(r3) == want) if res.get('repeat') else None
+                    except Exception as e:
+                        res['independent'] = False if res.get('repeat') else None
+                        res['independent_error'] = f'{type(e).__name__}: {e}'[:100]
+                    finally:
+                        for x, saved in wrote:       # the result may BE module-level state: put it back for the rest of the run
+                            x[...] = saved
             except Exception as e:
                 res['independent_error'] = f'{type(e).__name__}: {e}'[:100]
         res['variant'] = _variant_of(qual, k1)
@@ -599,6 +642,8 @@ def o_repeat(inp):
     ob = observe(q, inp['case'])
     if ob['status'] != 'ok' or ob.get('repeat') is None:
         return None
+    if q in TB.RANDOM_WHEN_OMITTED and any(a not in ob['combo'] for a in TB.RANDOM_WHEN_OMITTED[q]):
+        return None          # documented: draws the missing arguments at random
     if ob.get('results_share') and not (_documented_inplace(ob['variant'])):
         return {'tag': f'{q}/results-share-memory', 'observed': 'the arrays returned by two calls share memory', 'expected': 'independent results',
                 'note': str(ob['combo'])}
@@ -758,9 +803,13 @@ def lifecycle(cqual, opt, data, member, optional, trial):
         return {k: v for k, v in d.items() if isinstance(v, (bool, int, float, str, np.floating, np.integer)) and k not in TB.CARRIED_SCALARS}
     confs = []
 
+    ncall = [0]
+
     def call():
         with np.errstate(all='ignore'), warnings.catch_warnings():
             warnings.simplefilter('ignore')
+            _poison_heap(_shapes_in_play([list(kw.values()), inst]), ncall[0])
+            ncall[0] += 1
             if isprop:
                 return getattr(inst, member)
             return getattr(inst, member)(**kw)
